@@ -9062,7 +9062,18 @@ bool SoPlexBase<R>::_parseSettingsLine(char* line, const int lineNumber)
                          SPX_SET_MAX_LINE_LEN) == 0)
          {
             int value;
-            value = std::stoi(paramValueString);
+
+            // a value that is not a number or out of range for int is an invalid value, not an exception
+            try
+            {
+               value = std::stoi(paramValueString);
+            }
+            catch(const std::exception&)
+            {
+               SPX_MSG_INFO1(spxout, spxout << "Error parsing settings: invalid value <" << paramValueString
+                             << "> for int parameter <" << paramName << ">.\n");
+               return false;
+            }
 
             if(setIntParam((SoPlexBase<R>::IntParam)param, value, false))
                break;
@@ -9100,7 +9111,17 @@ bool SoPlexBase<R>::_parseSettingsLine(char* line, const int lineNumber)
 #ifdef WITH_FLOAT
             value = std::stof(paramValueString);
 #else
-            value = std::stod(paramValueString);
+            // a value that is not a number or out of range for double is an invalid value, not an exception
+            try
+            {
+               value = std::stod(paramValueString);
+            }
+            catch(const std::exception&)
+            {
+               SPX_MSG_INFO1(spxout, spxout << "Error parsing settings: invalid value <" << paramValueString
+                             << "> for real parameter <" << paramName << ">.\n");
+               return false;
+            }
 #endif
 #endif
 
@@ -9161,7 +9182,17 @@ bool SoPlexBase<R>::_parseSettingsLine(char* line, const int lineNumber)
          unsigned int value;
          unsigned long parseval;
 
-         parseval = std::stoul(paramValueString);
+         // a value that is not a number is an invalid value, not an exception
+         try
+         {
+            parseval = std::stoul(paramValueString);
+         }
+         catch(const std::exception&)
+         {
+            SPX_MSG_INFO1(spxout, spxout << "Error parsing settings: invalid value <" << paramValueString
+                          << "> for the random seed.\n");
+            return false;
+         }
 
          if(parseval > UINT_MAX)
          {
@@ -9551,7 +9582,18 @@ bool SoPlexBase<R>::parseSettingsString(char* string)
                          SPX_SET_MAX_LINE_LEN) == 0)
          {
             int value;
-            value = std::stoi(paramValueString);
+
+            // a value that is not a number or out of range for int is an invalid value, not an exception
+            try
+            {
+               value = std::stoi(paramValueString);
+            }
+            catch(const std::exception&)
+            {
+               SPX_MSG_INFO1(spxout, spxout << "Error parsing settings: invalid value <" << paramValueString
+                             << "> for int parameter <" << paramName << ">.\n");
+               return false;
+            }
 
             if(setIntParam((SoPlexBase<R>::IntParam)param, value, false))
                break;
@@ -9588,7 +9630,17 @@ bool SoPlexBase<R>::parseSettingsString(char* string)
 #ifdef WITH_FLOAT
             value = std::stof(paramValueString);
 #else
-            value = std::stod(paramValueString);
+            // a value that is not a number or out of range for double is an invalid value, not an exception
+            try
+            {
+               value = std::stod(paramValueString);
+            }
+            catch(const std::exception&)
+            {
+               SPX_MSG_INFO1(spxout, spxout << "Error parsing settings: invalid value <" << paramValueString
+                             << "> for real parameter <" << paramName << ">.\n");
+               return false;
+            }
 #endif
 #endif
 
@@ -9649,7 +9701,17 @@ bool SoPlexBase<R>::parseSettingsString(char* string)
          unsigned int value;
          unsigned long parseval;
 
-         parseval = std::stoul(paramValueString);
+         // a value that is not a number is an invalid value, not an exception
+         try
+         {
+            parseval = std::stoul(paramValueString);
+         }
+         catch(const std::exception&)
+         {
+            SPX_MSG_INFO1(spxout, spxout << "Error parsing settings: invalid value <" << paramValueString
+                          << "> for the random seed.\n");
+            return false;
+         }
 
          if(parseval > UINT_MAX)
          {
